@@ -32,8 +32,26 @@ func TopLibFrame() string {
 	pcs := make([]uintptr, 64)
 	n := runtime.Callers(2, pcs)
 	frames := runtime.CallersFrames(pcs[:n])
+	var all []runtime.Frame
 	for {
 		f, more := frames.Next()
+		all = append(all, f)
+		if !more {
+			break
+		}
+	}
+	// the panicking function is the first frame below the runtime's panic machinery
+	start := 0
+	for i, f := range all {
+		if f.Function == "runtime.gopanic" || f.Function == "runtime.sigpanic" || strings.HasPrefix(f.Function, "runtime.panic") || strings.HasPrefix(f.Function, "runtime.goPanic") {
+			start = i + 1
+		}
+	}
+	for _, f := range all[start:] {
+		if strings.HasPrefix(f.Function, "verifharness/") {
+			// raised in harness code (a callback the library invoked): not a library crash
+			return "HARNESS " + f.Function
+		}
 		if strings.Contains(f.Function, "fido-device-onboard/go-fdo") {
 			file := f.File
 			if i := strings.Index(file, "/repo/"); i >= 0 {
@@ -46,9 +64,6 @@ func TopLibFrame() string {
 				fn = fn[i+1:]
 			}
 			return fmt.Sprintf("%s %s", file, fn)
-		}
-		if !more {
-			break
 		}
 	}
 	return "unknown"
